@@ -57,6 +57,7 @@ pub fn run(ctx: &Ctx) {
     macro_rules! ck {
         ($key:expr, $cond:expr, $($m:tt)*) => {{
             ctx.eval(1);
+            ctx.case($key);
             n_entries += 1;
             if !($cond) {
                 ctx.violation($key, &format!($($m)*), json!({"kind": "constant", "which": $key, "detail": format!($($m)*)}));
@@ -64,7 +65,15 @@ pub fn run(ctx: &Ctx) {
         }};
     }
     let fe_val = |f: &hook::Fe| -> Fp { sp.value(&f.limbs()) };
-    let fe_ok = |f: &hook::Fe, want: &Fp| -> bool { f.as_bytes() == want.to_bytes() && fe_val(f) == *want && sp.admissible(&f.limbs()) };
+    // value equality through both the canonical bytes and the raw limbs; limbs within the serial
+    // headroom of the limb width (2^54 / b < 1.75).  The fiat builds reuse the serial constants
+    // files, whose table entries hold unreduced sums such as y+x with limbs up to ~2^51.7: these
+    // exceed fiat-crypto's *tight* bound but are what the (value-level) property is about
+    // (first version demanded the tight bound here and raised 256 false alarms on fiat64).
+    let generic_ok = |l: &[u64]| -> bool {
+        (0..sp.n).all(|i| if sp.n == 5 { l[i] < (1u64 << 54) } else { (l[i] as f64) < ((1u64 << sp.width[i]) as f64) * 2f64.powf(1.75) })
+    };
+    let fe_ok = |f: &hook::Fe, want: &Fp| -> bool { f.as_bytes() == want.to_bytes() && fe_val(f) == *want && generic_ok(&f.limbs()) };
 
     // ---- field constants of the selected serial backend
     let d = fp::d();
@@ -256,7 +265,7 @@ pub fn run(ctx: &Ctx) {
     {
         vector_part(ctx, &mut n_entries);
     }
-    ctx.nontriv(n_entries);
+    let _ = n_entries;
     *ctx.exhaustive.lock().unwrap() = Some(true);
     ctx.sample_tag("table", json!({"entry": "ED25519_BASEPOINT_TABLE[31][8]", "definition": "8 * 256^31 * B as (y+x, y-x, 2dxy)", "also": "selected through mul_base(8 * 256^31) and through the negated digit"}));
 }
@@ -266,6 +275,7 @@ fn vector_part(ctx: &Ctx, n_entries: &mut u64) {
     macro_rules! ck {
         ($key:expr, $cond:expr, $($m:tt)*) => {{
             ctx.eval(1);
+            ctx.case($key);
             *n_entries += 1;
             if !($cond) {
                 ctx.violation($key, &format!($($m)*), json!({"kind": "constant", "which": $key, "detail": format!($($m)*)}));
@@ -288,6 +298,7 @@ fn avx2_part(ctx: &Ctx, n_entries: &mut u64) {
     macro_rules! ck {
         ($key:expr, $cond:expr, $($m:tt)*) => {{
             ctx.eval(1);
+            ctx.case($key);
             *n_entries += 1;
             if !($cond) {
                 ctx.violation($key, &format!($($m)*), json!({"kind": "constant", "which": $key, "detail": format!($($m)*)}));
@@ -344,6 +355,7 @@ fn ifma_part(ctx: &Ctx, n_entries: &mut u64) {
     macro_rules! ck {
         ($key:expr, $cond:expr, $($m:tt)*) => {{
             ctx.eval(1);
+            ctx.case($key);
             *n_entries += 1;
             if !($cond) {
                 ctx.violation($key, &format!($($m)*), json!({"kind": "constant", "which": $key, "detail": format!($($m)*)}));
